@@ -15,13 +15,12 @@ META = {
     'technique': 'Coq proof (fold invariants over peer rows and over snapshot sequences) on a hand-written model of '
                  'ControlConnection._refresh_node_list_and_token_map + per-refresh correspondence with the real method',
     'level_text': 'C42_exact, C42_inv_seq, C42_exact_seq, C42_valid_spec, C42_added_once, C42_removed_once, C42_location_reaches_lbp, '
-                  'C42_token_rebuild_iff_changed, C42_membership_change_rebuilds proved for every state with the control node known, every '
+                  'C42_token_rebuild_iff_changed, C42_membership_change_rebuilds, C42_live_exact, C42_live_removed_once (nested refreshes on a live control connection) proved for every state with the control node known, every '
                   'snapshot (any number of peer rows, invalid and duplicate rows included) and every snapshot sequence; '
                   'C42_tokens_mirror_refuted / C42_tokens_mirror_partial isolate the open finding (token-only changes).',
     'level_note': 'Tie is correspondence (C). Partial: the clause "token map rebuilt whenever tokens changed" fails for token-only '
                   'changes (open finding C42-2). Not modelled: address translation / SNI endpoints (identity translator), sessions and '
-                  'connection pools (none exist), the re-entrant refresh that control_connection.on_remove/on_add trigger on a live '
-                  'control connection, prepared-statement re-preparation, real threads.',
+                  'connection pools (none exist), the reconnect when the control node itself is removed, prepared-statement re-preparation, real threads.',
     'design_ref': 'DESIGN.md section 4, C42',
 }
 
@@ -89,6 +88,9 @@ def gen_case(rng):
             members.add(rng.choice([a for a in (1, 2, 3, 4, 5) if a not in members]))
         elif m < 0.45 and members:
             members.discard(rng.choice(sorted(members)))
+        elif m < 0.57 and len(members) >= 2:
+            for a in rng.sample(sorted(members), rng.choice([2, 2, 3]) if len(members) >= 3 else 2):   # a rack / DC decommissioned
+                members.discard(a)
         for a in sorted(members):
             t = rng.random()
             if t < 0.10:
@@ -126,7 +128,7 @@ def gen_case(rng):
             elif l < 0.16:
                 local['tokens'] = None
         steps.append({'force': rng.random() < 0.12, 'preloaded': rng.random() < 0.5, 'local': local, 'peers': peers})
-    return {'v2': v2, 'token_meta': token_meta, 'init': init, 'steps': steps}
+    return {'v2': v2, 'token_meta': token_meta, 'init': init, 'steps': steps, 'live': rng.random() < 0.5}
 
 
 def corpus_cases():
@@ -152,8 +154,8 @@ def run(ctx):
               'fake connection answering the peers / local queries with exactly the columns asked for, recording rebuild_token_map',
               'hand-written model Model/NodeList.v tied to the source by correspondence only')
     ctx.assume('the control node is in the metadata before the first refresh (the driver connects to a known host)',
-               'identity address translator, DefaultEndPointFactory; no Session exists; no control connection installed, so '
-               'control_connection.on_remove/on_add do not re-enter the refresh',
+               'identity address translator, DefaultEndPointFactory; no Session exists; half of the histories run with a live control '
+               'connection (ControlConnection.on_remove re-enters the refresh, model refresh_live), half without (model refresh)',
                'each built-in execution profile has its own load-balancing policy (a policy shared by n profiles is notified n times)')
     ctx.rule = ('sequences of 1-5 snapshots over a ring of <= 5 peers evolving by joins, leaves, dc/rack moves and token moves; rows in every '
                 'address form (native/rpc address, bind-all and null falling back to peer, v2 ports), each required field missing in turn, '
@@ -176,8 +178,10 @@ def run(ctx):
         ctx.count('steps', len(case['steps']))
         ctx.count('peers_table', 'v2' if case['v2'] else 'v1')
         ctx.count('token_meta', str(case['token_meta']))
+        ctx.count('control_connection', 'live (nested refresh on removal)' if case.get('live') else 'none')
         for s, o in zip(case['steps'], obs):
             ctx.count('rows_per_snapshot', len(s['peers']))
+            ctx.count('hosts_removed_in_one_refresh', sum(1 for e in o['events'] if e[0] == 'l_remove'))
             ctx.count('invalid_rows', sum(1 for r in s['peers'] if not N.row_valid(r, case['token_meta'])))
             ctx.count('local_row', 'none' if s['local'] is None else ('no-partitioner' if not s['local']['partitioner'] else 'full'))
             for e in o['events']:
